@@ -10,6 +10,10 @@
   (`EdwardsGroup.lean`), `sdPointF G d n k` the iterated Edwards sum
   `Σ_{i<k} d_(n−1−i) • [2^(n−1−i)]G` of the first `k` ladder rounds (`FixedBase.lean`).
 
+  Theorems: `assertCanonicalJubjubScalar_extends / _sound / _complete`, `fixedBase_extends`,
+  `fixedBase_bad_digits`, `fixedBase_sound`, `ladder_sum_is_scalar_mul`, `fixedBase_complete`,
+  `fixedBase_complete_digits`, `mulGenerator_error_iff`, `mulGenerator_exact`,
+  `mulGenerator_satisfiable_iff`, `no_wrap_depends_on_constants`.
   Everything is proved at full strength; there is no `_partial` theorem.  The group-law corollary
   ("the returned point is `[s]G`") is **unconditional**: it needs associativity of the addition
   law, which is proved in `EdwardsAssoc.lean`; the hypothesis structure `JubjubGroupFacts` (group
@@ -26,6 +30,8 @@
       list, and a shorter list would move the closing row (`rows.length`), so the layout would no
       longer be the one of the widget.
     * completeness: `s < c.wit.size` (the scalar witness was allocated), `c.val 0 = 0`.
+    * `mulGenerator_satisfiable_iff`: the proposed value `v` is canonical in the field (`v < R`)
+      and `s = 0 → v = 0` (multiplying by the zero witness itself is satisfiable for `0` only).
     * the generator only has to be *on the curve* for soundness and completeness of the rows;
       prime order is checked by the host (`mulGenerator_error_iff`) and is what makes the result a
       subgroup element, but no row depends on it.
@@ -327,32 +333,46 @@ theorem mulGenerator_exact (c : Composer) (s : Nat) (gen : Ext) (hwf : WF c)
       c''.rowsHoldW w c.gates.size c'.gates.size →
         (toF (w s)).val < RJ ∧
         (toF (w p.1), toF (w p.2)) = smulF (toF (w s)).val (toFP (genAffine gen))) := by
-  have hr := componentMulGenerator_run s gen c
-  rw [hrun] at hr
-  by_cases h1 : genOk gen = true
-  · by_cases h2 : RJ ≤ c.val s
-    · rw [if_neg (by simp [h1]), if_pos h2] at hr
-      exact absurd (congrArg Prod.fst hr) (fun h => by cases h)
-    · rw [if_neg (by simp [h1]), if_neg h2] at hr
-      have hp : p = (fbBase c s + 4 * fbN, fbBase c s + 4 * fbN + 1) := by
-        have := congrArg Prod.fst hr; simpa using this
-      have hc' : c' = fbState c s (genAffine gen) (wnaf2 (c.val s)) := congrArg Prod.snd hr
-      have hb : fbBase c s = c.wit.size + 253 := canonOut_wit_size c s _
-      have hg := genOk_on_curve gen h1
-      have hv : c.val s < RJ := by omega
-      rw [hb] at hp
-      subst hc'
-      refine ⟨(genOk_iff gen).mp h1, hv, hg, fbState_extends c s _ _, fbState_wf c s _ _ hwf, hp,
-        fun c'' hext => fixedBase_complete_naf c s _ hwf hs hz hg hv c'' hext, ?_⟩
-      intro c'' hext w h0 hrows
-      obtain ⟨r1, d, -, -, -, -, -, r2⟩ :=
-        Composer.fixedBase_sound c s _ _ hwf hg (wnaf2_length _) c'' hext w h0 hrows
-      rw [hb] at r2
-      rw [hp]
-      exact ⟨r1, r2⟩
-  · have h1f : genOk gen = false := by simpa using h1
-    rw [if_pos h1f] at hr
-    exact absurd (congrArg Prod.fst hr) (fun h => by cases h)
+  obtain ⟨h1, hv, hp, hc'⟩ := componentMulGenerator_ok_inv c s gen p c' hrun
+  have hb : fbBase c s = c.wit.size + 253 := canonOut_wit_size c s _
+  have hg := genOk_on_curve gen h1
+  rw [hb] at hp
+  subst hc'
+  refine ⟨(genOk_iff gen).mp h1, hv, hg, fbState_extends c s _ _, fbState_wf c s _ _ hwf, hp,
+    fun c'' hext => fixedBase_complete_naf c s _ hwf hs hz hg hv c'' hext, ?_⟩
+  intro c'' hext w h0 hrows
+  obtain ⟨r1, d, -, -, -, -, -, r2⟩ :=
+    Composer.fixedBase_sound c s _ _ hwf hg (wnaf2_length _) c'' hext w h0 hrows
+  rw [hb] at r2
+  rw [hp]
+  exact ⟨r1, r2⟩
+
+/-- **C14, "satisfiable exactly when".**  Take the circuit produced by a successful call and any
+    canonical field value `v < r` proposed for the scalar witness `s` (`v = 0` if `s` is the zero
+    witness itself).  There is an assignment of *all* witnesses — digits and accumulators
+    included — that gives `s` the value `v`, the zero witness the value `0`, and satisfies the
+    appended rows **iff `v < r_J`**; and every such assignment carries `[v]·G` on the returned
+    point.  (The layout does not depend on the stored witness values, so this speaks about the
+    compiled circuit, not about the particular run.) -/
+theorem mulGenerator_satisfiable_iff (c : Composer) (s : Nat) (gen : Ext) (hwf : WF c)
+    (hs : s < c.wit.size) (p : Pt) (c' : Composer)
+    (hrun : (componentMulGenerator s gen).run c = (.ok p, c'))
+    (v : Nat) (hvR : v < R) (hs0 : s = 0 → v = 0) :
+    ((∃ w : Nat → Nat, w s = v ∧ w 0 = 0 ∧ c'.rowsHoldW w c.gates.size c'.gates.size) ↔
+      v < RJ) ∧
+    (∀ w : Nat → Nat, w s = v → w 0 = 0 → c'.rowsHoldW w c.gates.size c'.gates.size →
+      (toF (w p.1), toF (w p.2)) = smulF v (toFP (genAffine gen))) := by
+  obtain ⟨h1, -, hp, hc'⟩ := componentMulGenerator_ok_inv c s gen p c' hrun
+  have hg := genOk_on_curve gen h1
+  subst hc'
+  refine ⟨fbState_satisfiable_iff c s _ _ hwf hs hg (wnaf2_length _) v hvR hs0, ?_⟩
+  intro w hws hw0 hrows
+  obtain ⟨-, d, -, -, -, -, -, r2⟩ :=
+    Composer.fixedBase_sound c s _ _ hwf hg (wnaf2_length _) _ (Extends.refl _) w
+      (by rw [hw0]; simp) hrows
+  rw [hws, val_toF_of_lt hvR] at r2
+  rw [hp]
+  exact r2
 
 /-- non-vacuity: `component_mul_generator(2, exG)` on `initialized` succeeds. -/
 example : ∃ p c', (componentMulGenerator 2 (Ext.ofAffine exG)).run initialized = (.ok p, c') := by
@@ -362,13 +382,33 @@ example : ∃ p c', (componentMulGenerator 2 (Ext.ofAffine exG)).run initialized
   rw [if_neg g1, if_neg g2] at hr
   exact ⟨_, _, hr⟩
 
+/-- non-vacuity of `mulGenerator_satisfiable_iff` and both of its directions on that circuit:
+    the value `5 < r_J` is satisfiable for the scalar witness, the value `r_J` is not. -/
+example : ∃ p c', (componentMulGenerator 2 (Ext.ofAffine exG)).run initialized = (.ok p, c') ∧
+    (∃ w : Nat → Nat, w 2 = 5 ∧ w 0 = 0 ∧
+      c'.rowsHoldW w initialized.gates.size c'.gates.size) ∧
+    ¬ (∃ w : Nat → Nat, w 2 = RJ ∧ w 0 = 0 ∧
+      c'.rowsHoldW w initialized.gates.size c'.gates.size) := by
+  have hr := componentMulGenerator_run 2 (Ext.ofAffine exG) initialized
+  have g1 : ¬ (genOk (Ext.ofAffine exG) = false) := by decide +kernel
+  have g2 : ¬ (RJ ≤ initialized.val 2) := by decide +kernel
+  rw [if_neg g1, if_neg g2] at hr
+  refine ⟨_, _, hr, ?_, ?_⟩
+  · exact (mulGenerator_satisfiable_iff initialized 2 _ initialized_wf (by decide) _ _ hr 5
+      (by decide +kernel) (by decide)).1.mpr (by decide +kernel)
+  · rw [(mulGenerator_satisfiable_iff initialized 2 _ initialized_wf (by decide) _ _ hr RJ
+      (by decide +kernel) (by decide)).1]
+    exact Nat.lt_irrefl _
+
 /-! ## the no-wrap inequality depends on the extracted constants -/
 
 /-- The soundness proof (`fixedBase_sound` → `signed_digits_no_wrap_generated`) uses exactly the
     following facts about the constants extracted from `fixed_base.rs`; they are re-checked by the
     kernel whenever `Generated.lean` changes.  With `FIXED_BASE_LEADING_ZERO_ROUNDS` lowered below
     `2` the first conjunct is false (third conjunct: with one pinned round `2^255 + 2^252 > r`), so
-    the build breaks; likewise if `JUBJUB_SCALAR_BITS` no longer covers `r_J`. -/
+    the build breaks; likewise if `JUBJUB_SCALAR_BITS` no longer covers `r_J` (soundness), or if
+    more rounds are pinned than the 253-digit NAF of a canonical scalar leaves free (last
+    conjunct, completeness). -/
 theorem no_wrap_depends_on_constants :
     (2 ^ (Generated.FIXED_BASE_SIGNED_DIGIT_ROUNDS - Generated.FIXED_BASE_LEADING_ZERO_ROUNDS)
       + 2 ^ Generated.JUBJUB_SCALAR_BITS ≤ R) ∧
@@ -378,8 +418,8 @@ theorem no_wrap_depends_on_constants :
     Generated.FIXED_BASE_LEADING_ZERO_ROUNDS ≤ Generated.FIXED_BASE_SIGNED_DIGIT_ROUNDS ∧
     Generated.FIXED_BASE_SIGNED_DIGIT_ROUNDS = 256 ∧
     RJ ≤ 2 ^ Generated.JUBJUB_SCALAR_BITS ∧
-    Generated.FIXED_BASE_SIGNED_DIGIT_ROUNDS - Generated.FIXED_BASE_LEADING_ZERO_ROUNDS
-      = Generated.JUBJUB_SCALAR_BITS + 1 :=
+    Generated.JUBJUB_SCALAR_BITS + 1
+      ≤ Generated.FIXED_BASE_SIGNED_DIGIT_ROUNDS - Generated.FIXED_BASE_LEADING_ZERO_ROUNDS :=
   ⟨no_wrap, no_wrap_two, no_wrap_fails_below_two, by decide, leading_le_rounds, rfl,
     RJ_le_two_pow, by decide⟩
 
